@@ -15,7 +15,7 @@
 //                                                        rebuilt object has seen exactly the same sequence of public calls
 // Slots 0..3 hold T* + Aux + LOG (the N arguments and every op applied): the recipe to REBUILD the object from scratch.
 // One answer line per input line (flushed immediately: a sanitizer abort keeps every earlier answer on stdout):
-//   H text | N d args | O d op | CC d s | CA d s | MC d s | MA d s | SW d s | D d | X d op (last op, then destruction
+//   H text | N d args | O d op | Q d op (the op, then NO read of any slot) | CC d s | CA d s | MC d s | MA d s | SW d s | D d | X d op (last op, then destruction
 //   without a read in between) | P d (debugging aid: answers "dump <the dump of slot d>")
 //   H destroys every slot (several scripts may follow each other in one process); at end of input all slots are destroyed
 //   and a line "END" is printed.  CA / MA / SW onto an empty slot first make a fresh target from the N arguments of the
@@ -182,6 +182,14 @@ struct Driver {
           T* r = rebuild(s[d].log, s[d].ebase, ra, last);
           delete r;
           if (last != status) bad = "STATUS-MISMATCH slot=" + std::to_string(d) + " got=" + status + " want=" + last;
+        } else if (w == "Q") {  // an operation NOT followed by any read: lazily deferred work stays pending for the next line
+          if (!s[d].p) { say("BAD null slot"); continue; }
+          if (s[d].moved && s[d].unobservable) { say("BAD moved-from object of a class without empty state"); continue; }
+          status = A::apply(*s[d].p, s[d].aux, rest);
+          s[d].log.push_back(rest);
+          s[d].moved = false;
+          say("ok " + status + " | quiet");
+          continue;
         } else if (w == "D") {
           kill(d);
         } else if (w == "P") {  // debugging aid: the dump itself
